@@ -175,6 +175,28 @@ def run(chk, facts, tier, only=None):
             bad.append(n)
         getters = [n for n in method_calls(h["body"], r"^get$") if (expr_path(n["recv"]) or "").endswith("type_map")]
         chk.floor("type_map lookups in encode", len(getters), 3)
+        # type_map caches table indices under the *name* of a type variable, so over the life of one builder a name must keep denoting one
+        # definition: the serializer's environment may only grow through TypeEnv::merge, which refuses to rebind a name differently
+        muts = []
+        reads = 0
+        for k, hh in c.hir.items():
+            if not k.startswith("candid::ser::"):
+                continue
+            for n in walk(hh["body"]):
+                if n.get("k") == "mcall" and "type_env::TypeEnv" in (n.get("recv_ty") or "") and (expr_path(n["recv"]) or "").endswith("env"):
+                    if (n.get("recv_ty") or "").startswith("&mut"):
+                        muts.append((k, n["m"], n.get("ln")))
+                    else:
+                        reads += 1
+                if n.get("k") == "assign" and (expr_path(n["a"]) or "").endswith(".env"):
+                    muts.append((k, "=", n.get("ln")))
+        other = [m for m in muts if m[1] != "merge"]
+        chk.expect(bool(muts) and not other, "serializer-env:grows-by-merge-only",
+                   f"the environment of the type serializer is changed by {sorted({m[1] for m in other})} (in {sorted({m[0] for m in other})}): type_map "
+                   f"memoises table indices by type-variable name, so rebinding or renaming a name already used by an earlier argument makes a later "
+                   f"argument's type index point at the earlier definition (type and value sections disagree); only TypeEnv::merge, which rejects "
+                   f"inconsistent rebinding, may extend it", where=f"rust/candid/src/ser.rs:{other[0][2]}" if other else None,
+                   ok_detail=f"{len(muts)} mutation(s), all TypeEnv::merge; {reads} read-only use(s)")
 
     def r3():
         sorted_unique.run_rule(chk, facts, spec)
